@@ -84,6 +84,16 @@ func (w *c15World) serve(rw http.ResponseWriter, r *http.Request) {
 		return c, brw
 	}
 	switch {
+	case strings.HasPrefix(sc.kind, "S"):
+		// a plain status with a body, no redirect
+		code := vutil.Atoi(sc.kind[1:])
+		rw.Header().Set("Content-Type", "text/plain")
+		rw.WriteHeader(code)
+		_, _ = io.WriteString(rw, sc.data)
+	case strings.HasPrefix(sc.kind, "R"):
+		// a redirect the client follows to a 200 with the body
+		rw.Header().Set("Location", "http://"+r.Host+r.URL.Path+".r")
+		rw.WriteHeader(vutil.Atoi(sc.kind[1:]))
 	case sc.kind == "F" && sc.data == "404":
 		http.Error(rw, "||w0.never.example^\n", http.StatusNotFound)
 	case sc.kind == "F" && sc.data == "500":
@@ -281,7 +291,11 @@ func (w *c15World) refresh(f []string) []string {
 			}
 		} else {
 			w.mu.Lock()
-			w.scripts[strings.TrimPrefix(fy.URL, "http://")] = c15Script{kind: kind, data: data, complete: complete}
+			key := strings.TrimPrefix(fy.URL, "http://")
+			w.scripts[key] = c15Script{kind: kind, data: data, complete: complete}
+			if strings.HasPrefix(kind, "R") {
+				w.scripts[key+".r"] = c15Script{kind: "B", data: data, complete: complete}
+			}
 			w.mu.Unlock()
 		}
 	}
@@ -307,8 +321,13 @@ func (w *c15World) observe(before []os.FileInfo) (obs []string) {
 		}
 		after, _ := os.Stat(p)
 		rew := after != nil && (before[i] == nil || !os.SameFile(before[i], after))
+		// What a restart computes: the real DNSFilter.load on the stored file.
+		re := FilterYAML{Filter: Filter{ID: fy.ID}}
+		if lerr := w.d.load(&re); lerr != nil {
+			panic(fmt.Sprintf("load of the stored list %d failed: %v", i, lerr))
+		}
 		obs = append(obs, strconv.Itoa(fy.RulesCount), strconv.FormatUint(uint64(fy.checksum), 10), file,
-			strconv.Itoa(w.mask(i)), vutil.B(rew))
+			strconv.Itoa(w.mask(i)), vutil.B(rew), strconv.Itoa(re.RulesCount), strconv.FormatUint(uint64(re.checksum), 10))
 	}
 	// no stray pending files may be left behind
 	ents, _ := os.ReadDir(filepath.Join(w.dataDir, filterDir))
@@ -338,6 +357,9 @@ func (w *c15World) setURL(f []string) []string {
 	newURL := c15HTTPURL(j, k)
 	w.mu.Lock()
 	w.scripts = map[string]c15Script{strings.TrimPrefix(newURL, "http://"): {kind: kind, data: data, complete: complete}}
+	if strings.HasPrefix(kind, "R") {
+		w.scripts[strings.TrimPrefix(newURL, "http://")+".r"] = c15Script{kind: "B", data: data, complete: complete}
+	}
 	w.mu.Unlock()
 
 	body, err := json.Marshal(filterURLReq{
@@ -391,6 +413,9 @@ func c15Content(r *rand.Rand, i int) string {
 			b.WriteString("\n")
 		case 3:
 			b.WriteString("  \t\r\n")
+		case 4:
+			// an Adblock-style header, before or after a title
+			b.WriteString(vutil.Pick(r, []string{"[Adblock Plus 2.0]\n", "! Title: T\n[Adblock Plus 2.0]\n", "[Adblock Plus 2.0]\n! Title: T\n", "[uBlock Origin]\n"}))
 		default:
 			k := r.IntN(4)
 			rule := fmt.Sprintf("||w%d.l%d.example^", k, i)
@@ -460,6 +485,10 @@ func c15GenB(r *rand.Rand, emit vutil.Emit) {
 						data = "<html><body>moved</body></html>\n"
 					case x < 8:
 						data = prev[i]
+					case x < 10:
+						kind = "S" + vutil.Pick(r, []string{"201", "204", "206", "301", "304", "403", "503"})
+					case x < 11:
+						kind = "R" + vutil.Pick(r, []string{"301", "302", "308"})
 					}
 					emit("C15.seturl", strconv.Itoa(i), strconv.Itoa(j), strconv.Itoa(k), vutil.B(r.IntN(5) > 0),
 						kind, vutil.Hex(data), vutil.B(complete))
@@ -516,7 +545,27 @@ func c15GenB(r *rand.Rand, emit vutil.Emit) {
 				default:
 					data = c15Content(r, i)
 				}
-				if kind == "B" && complete {
+				if !l.local && r.IntN(6) == 0 {
+					// other status codes, with empty / partial / full bodies
+					body := c15Content(r, i)
+					switch r.IntN(3) {
+					case 0:
+						body = ""
+					case 1:
+						// the first half, whole lines only (a truncated rule would be a
+						// different, broader rule for the probe oracle)
+						body = body[:len(body)/2]
+						body = body[:strings.LastIndexByte(body, '\n')+1]
+					}
+					if r.IntN(4) == 0 {
+						kind = "R" + vutil.Pick(r, []string{"301", "302", "303", "307", "308"})
+					} else {
+						kind = "S" + vutil.Pick(r, []string{"201", "202", "203", "204", "205", "206", "226", "300", "301", "302",
+							"304", "307", "400", "401", "403", "410", "429", "500", "502", "503"})
+					}
+					data, complete = body, true
+				}
+				if (kind == "B" || kind[0] == 'R') && complete {
 					prev[i] = data
 				}
 				op = append(op, vutil.B(due), kind, vutil.Hex(data), vutil.B(complete))
